@@ -1,5 +1,6 @@
 (* C02 correspondence cases: what the implementation answered, to be compared with the model *)
 From FB Require Export C02.Model C02.Encode C02.Frames C02.Class C02.Decode C02.Facts Base.Run.
+From FB Require Import C02.TheoryC8 C02.TheoryC11.
 From Coq Require Export Uint63.
 Local Open Scope Z_scope.
 
@@ -178,8 +179,8 @@ Inductive case :=
     (* the BootstrapMethods table of a written class, in file order (method_ref, arguments) *)
 | CClass (strings : list packed) (t : (N -> list N) -> cclass) (r : kanswer) (dec : bool).
     (* a whole tree (strings by index into the table) and the class file duke::write_class produced;
-       dec: the tree satisfies the hypotheses of the decode theorem (it was read by duke), so the decoder
-       of C02/Decode.v applied to the bytes must give the facts of the tree *)
+       dec: the tree was read by duke: it must satisfy the hypothesis cclass_ok of C02_write_class_decodes, and
+       the decoder of C02/Decode.v applied to the bytes must give the facts of the tree *)
 
 (* (instruction index, frame) pairs, ascending -> one optional frame per instruction *)
 Fixpoint dense (n : nat) (k : N) (fs : list (N * sframe)) : list (option sframe) :=
@@ -276,7 +277,7 @@ Definition check (c : case) : bool :=
       match write_class_aux tree, r with
       | OK (bs, aux), KOk p =>
           list_eqb N.eqb bs (unpacked p)
-          && (negb dec || match facts_of tree aux, parse_class bs with Some d, Some d' => dclass_eqb d d' | _, _ => false end)
+          && (negb dec || (cclass_ok tree && cclass_np tree && match facts_of tree aux, parse_class bs with Some d, Some d' => dclass_eqb d d' | _, _ => false end))
       | ERR, KErr => true
       | PANIC, KPanic => true
       | _, _ => false
